@@ -31,6 +31,26 @@ var OddRunes = []rune{
 	0x0661, 0xFF11, 0x212A, 0x017F, 0x0130, 0x0131, 0xFF41, 0xFF1D, 0xFF08, 0xFF3B, 0xFF5B, 0xFF02, 0xFF0E,
 	0x0120, 0x0109, 0x010D, 0x010A, 0x0122, 0x0127, 0x0123, 0x0128, 0x015B, 0x017B, 0x0130, 0x0141, 0x0161, 0x013D, 0x0160, 0x015C, 0x012E, 0x012C, 0x013A, 0x013B,
 	0x4E09, 0x4E0D, 0x2020, 0x1F609, 0x1F60D, 0x0420, 0x2009, 0x200A, 0x2022, 0x2027, 0x205F,
+	// letters whose lower- or upper-case form has another length in bytes, or is an ASCII letter
+	0x023A, 0x023E, 0x1E9E, 0x2126, 0x212B, 0x0390, 0x00DF, 0x0149, 0x01F0, 0xFB00, 0x2C65, 0x2C66,
+}
+
+// CaseShiftingWords: names of 8..12 bytes that hold one letter whose case mapping changes its length in bytes: what a
+// fixed buffer sized for the longest keyword sees at and around its limit.
+func CaseShiftingWords() []string {
+	var out []string
+	for _, r := range []rune{0x023A, 0x023E, 0x1E9E, 0x0130, 0x2126, 0x212A, 0x00DF, 0x0149} {
+		w := len(string(r))
+		for total := 8; total <= 12; total++ {
+			if total-w < 1 {
+				continue
+			}
+			pad := strings.Repeat("a", total-w)
+			out = append(out, pad+string(r), string(r)+pad, pad[:len(pad)/2]+string(r)+pad[len(pad)/2:])
+		}
+		out = append(out, strings.Repeat(string(r), 4), strings.Repeat(string(r), 5), "rate_"+string(r)+string(r))
+	}
+	return out
 }
 
 // OddIdents are identifiers that begin with, end with or consist of one odd rune.
@@ -141,7 +161,7 @@ func TripleQuote(s string, q byte) (string, bool) {
 	return qq + s + qq, true
 }
 
-var oddIdents = OddIdents()
+var oddIdents = append(OddIdents(), CaseShiftingWords()...)
 
 func (p *Profile) identName(t *rapid.T) string {
 	if rapid.IntRange(0, 9).Draw(t, "oddident") == 0 {
